@@ -167,6 +167,82 @@ Proof.
 Qed.
 End ParPure.
 
+(** * The two entry points as functions of the caller's arguments
+
+    [PhaseDiagram::pure] and [PhaseDiagram::par_pure] both start with
+    [State::critical_point(eos, None, critical_temperature, SolverOptions::default())?] — the critical point is
+    computed with the DEFAULT options whatever [options] the caller passes — build the temperature grid from it
+    and then run the point solver with the caller's options.  [cp o] is the critical-point solver under options [o]
+    ([None] = error, propagated by [?]), [grid c] the temperatures below the critical state [c], [solve o] the point
+    solver under options [o]. *)
+Section Api.
+Variables Opt T St : Type.
+Variable default : Opt.
+Variable cp : Opt -> option St.
+Variable grid : St -> list T.
+Variable solve : Opt -> T -> option St -> option St.
+
+Definition pure_api (o : Opt) : option (list St) :=
+  match cp default with
+  | None => None
+  | Some c => Some (pure T St (solve o) (grid c) c)
+  end.
+
+Definition par_pure_api (o : Opt) (k : nat) : option (list St) :=
+  match cp default with
+  | None => None
+  | Some c => Some (par_pure T St (solve o) k (grid c) c)
+  end.
+
+(** same [Ok]/[Err], same states, same order, for every caller option [o] and every chunk size *)
+Theorem par_pure_api_order : forall o, guess_independent T St (solve o) ->
+  forall k, 1 <= k -> par_pure_api o k = pure_api o.
+Proof.
+  intros o HG k Hk. unfold par_pure_api, pure_api. destruct (cp default) as [c|]; auto.
+  rewrite par_pure_order; auto.
+Qed.
+
+(** both succeed or fail together and end in the same critical state, without any hypothesis on the solver *)
+Theorem api_same_critical_state : forall o k d,
+  match pure_api o, par_pure_api o k with
+  | Some a, Some b => last a d = last b d
+  | None, None => True
+  | _, _ => False
+  end.
+Proof.
+  intros o k d. unfold pure_api, par_pure_api. destruct (cp default) as [c|]; auto.
+  destruct (critical_point_last T St (solve o) k (grid c) c d) as [H1 H2]. congruence.
+Qed.
+
+(** a sequential variant that computes its critical point with the caller's options (not the code) *)
+Definition pure_api_caller_options (o : Opt) : option (list St) :=
+  match cp o with
+  | None => None
+  | Some c => Some (pure T St (solve o) (grid c) c)
+  end.
+End Api.
+
+(** if the critical-point solver depends on its options, such a variant differs from [par_pure_api] *)
+Example caller_options_for_critical_point_differ :
+  let cp := fun o : nat => if Nat.eqb o 0 then Some 100 else if Nat.eqb o 1 then Some 101 else None in
+  let grid := fun c : nat => [c - 2; c - 1] in
+  let solve := fun (_ t : nat) (_ : option nat) => Some t in
+  par_pure_api nat nat nat 0 cp grid solve 1 2 = Some [98; 99; 100]
+  /\ pure_api nat nat nat 0 cp grid solve 1 = Some [98; 99; 100]
+  /\ pure_api_caller_options nat nat nat cp grid solve 1 = Some [99; 100; 101]
+  /\ pure_api_caller_options nat nat nat cp grid solve 2 = None.
+Proof. vm_compute. auto. Qed.
+
+(** a result is laid out on the grid: strictly increasing grid indices below [n], then the critical point *)
+Fixpoint increasing_below (n : nat) (lo : nat) (l : list nat) (crit : nat) : bool :=
+  match l with
+  | [] => false
+  | [c] => Nat.eqb c crit
+  | i :: l' => Nat.leb lo i && Nat.ltb i n && increasing_below n (S i) l' crit
+  end.
+
+Definition on_grid (n crit : nat) (l : list nat) : bool := increasing_below n 0 l crit.
+
 (** * Replay: the point solver given as a table (which grid temperatures have a converged equilibrium),
     states identified with the index of their temperature *)
 Definition table_solver (ok : list bool) (t : nat) (g : option nat) : option nat :=
